@@ -17,6 +17,7 @@ LEVEL_TEXT = ("Full-strength theorems over the ticker/device model for every wir
               "iff it is reported and absent from or different in the previous report. Tied to ticker.py / device_component.py by the per-Ticker "
               "acceptor (direct driving with all answer orders + whole simulations) and by comparing every Output message with the model's change "
               "detection over histories where ports change, repeat and disappear. FOR ANY ANSWER ORDER AT EVERY NESTING LEVEL (every scheduler level answers its pending dispatches in ANY order, a system component's answer is any such execution of its inner level; Core/SimAny; none of these corollaries assumes that the first-in first-out model succeeds - that follows from the existence of the execution) (Props/AnyTransferC02): on the ticker trace of every level of every execution a component receives an Input iff it is a root or one of its wired ports was reported changed in this tick, a Skip otherwise, nothing if it is not downstream of a root (any_order_input_iff_root_or_changed, any_order_dispatched_iff), and a component at any depth receives an equivalent dispatch in every execution (any_order_same_dispatch, any_order_same_updates).")
+LEVEL_ADDENDUM = 'Session 8: interrupts are swept over every loop step of a flat and a nested tick for components that take part in the tick but are passed over (an Input / Skip decision is never revised); one generated scenario in four also runs from a configuration FILE through read_configs / build_simulation (possibly divided over several simulations on one bus) / TickitSimulation.run().'
 LEVEL_NOTE = "Trusts: Lean kernel; hand-written ticker/device models (tied by acceptor and differential run); Python dict equality for change detection (values are ints in the runs)."
 ASSUMPTIONS = ["each input port has one source", "device outputs are mappings with hashable values compared by =="]
 MON = ("ticker", "change_detection", "device_order", "system_output")
